@@ -52,6 +52,31 @@ Mutations ==
       rebind   |-> SAssign(EVar(Xs), EList(<<>>)),
       append   |-> SOpAssign(EVar(Xs), "+", EList(<<EInt(4)>>)),
       setrange |-> SAssign(ERIndex(EVar(Xs), EInt(1), ENone), EList(<<EInt(8), EInt(9)>>)) ]
+Nn == <<110, 110>>
+RangeLoops == [
+  \* the bounds of a range in the loop header are evaluated once, at loop entry
+  endvar    |-> <<SDecl(EVar(Nn), EInt(3)),
+                  SFor(EVar(It(1)), ERange(EInt(0), EVar(Nn)), <<SOpAssign(EVar(Nn), "-", EInt(1)), SPrint(EVar(It(1)))>>),
+                  SPrint(EVar(Nn))>>,
+  startvar  |-> <<SDecl(EVar(Nn), EInt(0)),
+                  SFor(EVar(It(1)), ERange(EVar(Nn), EInt(3)), <<SOpAssign(EVar(Nn), "+", EInt(2)), SPrint(EVar(It(1)))>>)>>,
+  endcall   |-> <<SDecl(EVar(Nn), EInt(3)), SFn(Fn(1), <<>>, FALSE, <<P(77), SReturn(EVar(Nn))>>),
+                  SFor(EVar(It(1)), ERange(EInt(0), ECall(EVar(Fn(1)), <<>>)),
+                       <<SOpAssign(EVar(Nn), "-", EInt(1)), SPrint(EVar(It(1)))>>)>>,
+  listvar   |-> <<SDecl(EVar(Xs), EList(<<EInt(1), EInt(2)>>)),
+                  SFor(EVar(It(1)), EVar(Xs), <<SAssign(EVar(Xs), EBin("+", EVar(Xs), EList(<<EInt(9)>>))), SPrint(EVar(It(1)))>>),
+                  SPrint(EVar(Xs))>>,
+  strvar    |-> <<SDecl(EVar(Xs), EStr(<<97, 98>>)),
+                  SFor(EVar(It(1)), EVar(Xs), <<SOpAssign(EVar(Xs), "+", EStr(<<99>>)), SPrint(EVar(It(1)))>>),
+                  SPrint(EVar(Xs))>>,
+  whilecond |-> <<SDecl(EVar(Nn), EInt(0)), SFn(Fn(1), <<>>, FALSE, <<P(77), SReturn(EBin("<", EVar(Nn), EInt(2)))>>),
+                  SWhile(ECall(EVar(Fn(1)), <<>>), <<SOpAssign(EVar(Nn), "+", EInt(1)),
+                                                     SIf(EBin("==", EVar(Nn), EInt(2)), <<SContinue>>), P(1)>>),
+                  SPrint(EVar(Nn))>>,
+  whilecontinuelast |-> <<SDecl(EVar(Nn), EInt(0)),
+                  SWhile(EBin("<", EVar(Nn), EInt(3)), <<SOpAssign(EVar(Nn), "+", EInt(1)), SPrint(EVar(Nn)),
+                                                          SIf(EBin(">=", EVar(Nn), EInt(2)), <<SContinue>>), P(50)>>),
+                  SPrint(EVar(Nn))>> ]
 
 \* parameter tuples: <<family, k1, k2, k3, j, pos, j2>>
 C07Params ==
@@ -60,6 +85,7 @@ C07Params ==
              k1 \in CKinds, k2 \in CKinds, j \in Jumps \ {"none"}, pos \in {0, 1}, j2 \in Jumps }
     \cup { <<"mutl", m, "-", "-", "none", 0, "none">> : m \in DOMAIN Mutations }
     \cup { <<"muto", "-", "-", "-", "none", 0, "none">> }
+    \cup { <<"rloop", r, "-", "-", "none", 0, "none">> : r \in DOMAIN RangeLoops }
 
 C07ParamsThorough ==
     C07Params
@@ -82,6 +108,7 @@ C07ProgOf(p) ==
       [] p[1] = "mutl" -> <<SDecl(EVar(Xs), EList(<<EInt(1), EInt(2), EInt(3)>>)),
                             SFor(EVar(It(1)), EVar(Xs), <<SPrint(EVar(It(1))), Mutations[p[2]]>>),
                             SPrint(EVar(Xs))>>
+      [] p[1] = "rloop" -> RangeLoops[p[2]]
       [] p[1] = "muto" -> <<SDecl(EVar(Xs), EObj(<<Pair(EStr(<<98>>), EInt(1))>>)),
                             SFor(EVar(It(1)), EVar(Xs),
                                  <<SPrint(EVar(It(1))),
